@@ -197,7 +197,20 @@ def random_case(draw, tier="quick"):
         sparse = True
         spec = gen_atoms.pad(spec, draw(st.sampled_from([0, 100, 300, 700])), draw(st.sampled_from([40, 200, 500])))
     n = len(spec["pos"])
-    if sparse:
+    if sparse and n >= 320 and draw(hperm.integers(0, 2)) == 0:
+        # hundreds of deletions in one call (a solvent stripped from around a fragment): everything goes except the
+        # fragment (minus up to two of its atoms) and a handful of plain atoms, so that surviving terms have 256+ deleted
+        # atoms below them
+        frag = [i for i in range(n) if any(i in t for kind in M.KINDS for t in spec[kind + "s"])]
+        keep = set(frag) | set(draw(st.sets(hperm.integers(0, n - 1), min_size=0, max_size=12)))
+        for _ in range(draw(hperm.integers(0, 2))):
+            if frag:
+                keep.discard(frag[draw(hperm.integers(0, len(frag) - 1))])
+        sub = [i for i in range(n) if i not in keep] or [0]
+        if draw(st.booleans()):
+            sub = sub[::-1]
+        k = len(sub)
+    elif sparse:
         sub = sorted(draw(st.sets(hperm.integers(0, n - 1), min_size=16, max_size=40)))
         if draw(st.booleans()):
             sub = [sub[i] for i in draw(hperm.permutations(range(len(sub))))]
@@ -242,6 +255,8 @@ def random_oracle(case, stats):
     nterms = sum(len(case["spec"][k + "s"]) for k in M.KINDS)
     if len(case["spec"]["pos"]) >= 128 and nterms * 8 < len(case["spec"]["pos"]):
         stats.count("large-with-sparse-topology")
+    if len(case.get("indices") or case.get("first") or []) >= 256:
+        stats.count("256+-atoms-deleted-in-one-call")
 
 
 PARTS = [
